@@ -490,6 +490,10 @@ def run_part(pid, part, tier, report, known):
             fn(ctx)
         except M.Unsupported as e:
             incon.append('E2 %s: %s' % (title, e))
+        except Exception as e:                      # a specification must never take the check down: undecided, not a verdict
+            import traceback
+            incon.append('E2 %s: internal error while evaluating the specification on this tree (%s: %s at %s)' % (
+                title, type(e).__name__, e, traceback.format_exc().strip().splitlines()[-3].strip()[:120]))
         if len(entry) > 2:
             # only the clauses of this specification that concern the property (entry[2]: predicate on the clause text)
             ctx.obligations[n0:] = [o for o in ctx.obligations[n0:] if entry[2](o['name'])]
@@ -2498,7 +2502,7 @@ def spec_async_dispatch(ctx):
             good = good and m is not None and _flat(cs[-1].args[1]).replace('local__1', 'p1') in (m.group(1).replace('local__1', 'p1'),)
         if not good:
             ok = False
-            why = str([e.callee[:60] for e in cs]) + ' sent=' + (_flat(cs[-1].args[1]) if cs else '')
+            why = str([e.callee[:60] for e in cs]) + ' sent=' + (_flat(cs[-1].args[1]) if cs and len(cs[-1].args) > 1 else '')
             break
     ctx.ob(key, 'the spawned job: world = state.world.borrow(); every stage of state.stages is executed exactly once, in order; then the state is sent back - on every path', ok, '' if ok else why)
 
@@ -2774,3 +2778,33 @@ _ensure('C03', ('commit part of insert', spec_insert))
 _ensure('C05', ('Stage::execute / dispatch_par structure', spec_stage_exec))
 _ensure('C19', ('DispatcherBuilder::add resolves names to ids', spec_add))
 
+
+# ---- attachment by role (rounds 5-10 kept finding defects in a function whose specification existed but was not part of the
+# check of the property the defect was written against): every property about plans gets every planner specification, every
+# property about what a dispatch does gets the executor specifications, isolation / schedule independence also get the
+# "declared access = what fetch borrows" specifications of the provided data types.
+def _attach(pid, title, fn, clauses=None):
+    if fn not in [e[1] for e in SPECS.get(pid, [])]:
+        SPECS.setdefault(pid, []).append((title, fn) if clauses is None else (title, fn, clauses))
+
+
+def _build_clauses(name):
+    return re.search(r'StagesBuilder::build|^build:|new_dispatcher', name) is not None
+
+
+_PLAN_PROPS = ('C01', 'C02', 'C03', 'C04', 'C05', 'C07', 'C10', 'C18', 'C19', 'C20')
+for _p in _PLAN_PROPS:
+    _attach(_p, 'commit part of insert', spec_insert)
+    _attach(_p, 'stage search range', spec_insertion_target)
+    _attach(_p, 'per-stage steps of the search', spec_insertion_closures)
+    _attach(_p, 'add_barrier only moves the barrier index', spec_add_barrier)
+    _attach(_p, 'add_batch registers the batch and announces the union', spec_add_batch)
+    _attach(_p, 'batch wrapper reports it', spec_batch_wrapper)
+    _attach(_p, 'DispatcherBuilder::add', spec_add)
+    _attach(_p, 'build hands the accumulated plan over unchanged', spec_stage_exec, _build_clauses)
+for _p in ('C01', 'C02', 'C03', 'C04', 'C05', 'C10', 'C11', 'C12', 'C13'):
+    _attach(_p, 'dispatch entry points forward to the parallel / sequential walk of all stages', spec_forwarders, _dispatch_clauses)
+    _attach(_p, 'Stage loops', spec_stage_loops)
+for _p in ('C01', 'C05'):
+    _attach(_p, 'declared access of the provided leaf data types', spec_c06_leaves)
+    _attach(_p, 'declared access of tuples = concatenation of the members', spec_c06_tuples)
